@@ -38,6 +38,10 @@ def obligations(tier, seed=0):
         obs.append((FT + 'bit_prims', dict(fn='python_trailing', bits=bits)))
     for bits in (4, 7, 10, 13, 16):
         obs.append((FT + 'sqrtrem_loops', dict(bits=bits)))
+    # the python rounding kernel with more than 300 bits discarded (gmpy's C kernel has no such table): correct rounding
+    for rnd in RNDS:
+        obs.append(('checks.fam_arith:normalize', dict(bc=310, prec=5, rnd=rnd, which='_normalize')))
+        obs.append(('checks.fam_arith:from_man_exp', dict(bc=320, prec=9, rnd=rnd)))
     if tier == 'thorough':
         for sbc, tbc, prec in [(16, 16, 11), (20, 14, 7), (24, 24, 24), (64, 64, 53), (113, 113, 113), (200, 200, 113)]:
             for rnd in RNDS:
